@@ -10,6 +10,29 @@ use crate::suite_crash::image_str;
 use crate::suite_db::{enable_events, parse_cfg, Session, EVENTS};
 use crate::util::*;
 
+/// the file operations since `from`, as `c:<file>` (create/truncate), `w:<file>` (consecutive
+/// writes to one file collapsed), `r:<from>><to>`, `d:<file>`
+fn ops_since(sim: &SimFs, from: usize) -> (String, usize) {
+    use crate::simfs::FsOp;
+    let log = sim.oplog();
+    let base = |p: &std::path::PathBuf| p.file_name().map(|n| n.to_string_lossy().to_string()).unwrap_or_default();
+    let mut out: Vec<String> = vec![];
+    for op in &log[from.min(log.len())..] {
+        let t = match op {
+            FsOp::Create { path, append } => format!("{}:{}", if *append { "a" } else { "c" }, base(path)),
+            FsOp::Write { path, .. } => format!("w:{}", base(path)),
+            FsOp::Rename { from, to } => format!("r:{}>{}", base(from), base(to)),
+            FsOp::Remove { path } => format!("d:{}", base(path)),
+            FsOp::RemoveDirAll { path } => format!("D:{}", base(path)),
+        };
+        if t.starts_with("w:") && out.last() == Some(&t) {
+            continue;
+        }
+        out.push(t);
+    }
+    (if out.is_empty() { "-".to_string() } else { out.join(",") }, log.len())
+}
+
 fn drain() -> String {
     let evs: Vec<String> = EVENTS.lock().unwrap().drain(..).collect();
     if evs.is_empty() {
@@ -32,7 +55,8 @@ pub fn run_proto(line: &str) -> String {
         Err(e) => return format!("{} open-{}", id, e),
     };
     sess.quiesce();
-    out.push(format!("O{}%ok%{}%{}", toks[1], drain(), image_str(&sim, cfg)));
+    let (fsops, mut mark) = ops_since(&sim, 0);
+    out.push(format!("O{}%ok%{}%{}%{}", toks[1], drain(), image_str(&sim, cfg), fsops));
     for op in &toks[2..] {
         if sess.db.is_none() && op.as_bytes()[0] != b'O' {
             out.push(format!("{}%closed%-", op));
@@ -46,7 +70,9 @@ pub fn run_proto(line: &str) -> String {
             sess.quiesce();
         }
         let evs = drain();
-        out.push(format!("{}%{}%{}%{}", op, res.replace('%', "_").replace(' ', "_"), evs, image_str(&sim, cfg)));
+        let (fsops, m2) = ops_since(&sim, mark);
+        mark = m2;
+        out.push(format!("{}%{}%{}%{}%{}", op, res.replace('%', "_").replace(' ', "_"), evs, image_str(&sim, cfg), fsops));
     }
     sess.close();
     raindb::verif_hooks::events::uninstall();
